@@ -1,6 +1,6 @@
 (* C10 — only strong public keys are certified (the panic-freedom half is tested, not proved,
    except for keymaster's own address-extension decoder, see C11). *)
-From KM Require Import Base.Bytes Model.KeyStrength Proofs.KeyStrength Model.IPExt Proofs.IPExt Model.ClaimAccess Proofs.ClaimAccess Model.PemWalk Proofs.PemWalk.
+From KM Require Import Base.Bytes Model.KeyStrength Proofs.KeyStrength Model.IPExt Proofs.IPExt Model.ClaimAccess Proofs.ClaimAccess Model.PemWalk Proofs.PemWalk Model.KeyFraming Proofs.KeyFraming.
 Import ListNotations.
 
 Theorem c10_strong : forall k, validate k = true ->
@@ -163,3 +163,56 @@ Theorem c10_header_assertion : (forall header, check_typ_checked header <> Panic
                                (exists header, check_typ_unchecked header = Panic).
 Proof. split; [exact check_typ_checked_total|exact check_typ_unchecked_panics]. Qed.
 Print Assumptions c10_header_assertion.
+
+(* The byte-level FRAMING of an uploaded key (byte order marks, NUL bytes, a gzip magic in front; stray bytes
+   behind; the text cut to an odd / even length; the text transcoded to UTF-16).  An issuing path is
+   normalise ; parse ; validate ; sign, where the normaliser ([normcfg]: strips a UTF-8 mark / transcodes
+   UTF-16LE / UTF-16BE recognised by its mark - which of these a path does is observed on every run, today
+   none) is keymaster's own code on the raw bytes and the parsers are ANY functions of the normalised text.
+   For every configuration of a normaliser that tests the length before it reads a code unit, every pair of
+   parsers (that agree where the path parses twice), every path and EVERY byte string - in particular every
+   framing [pre ++ body cut by n bytes ++ suf] of every key file - the answer is a client error, or a
+   certificate for the key the parser reads out of the normalised text, and that key passes the strength
+   predicate; never a panic.  A transcoder without the length test panics, and exactly on a UTF-16 mark
+   followed by an odd number of bytes (c10_unguarded_transcoder_refuted). *)
+Theorem c10_upload_refused_or_admissible : forall c pv ps p up,
+  guarded16 c = true ->
+  (parses_twice p = true -> forall t, ps t = pv t) ->
+  upload_pipeline c pv ps p up = Ok ClientError \/
+  exists t k, normalize c up = Ok t /\ pv t = Some k /\ validate (snd k) = true /\
+              upload_pipeline c pv ps p up = Ok (Signed (snd k)).
+Proof. exact upload_refused_or_admissible. Qed.
+Print Assumptions c10_upload_refused_or_admissible.
+
+Theorem c10_framed_upload_refused_or_admissible : forall c pv ps p pre suf cut body,
+  guarded16 c = true ->
+  (parses_twice p = true -> forall t, ps t = pv t) ->
+  upload_pipeline c pv ps p (frame pre suf cut body) = Ok ClientError \/
+  exists t k, normalize c (frame pre suf cut body) = Ok t /\ pv t = Some k /\ validate (snd k) = true /\
+              upload_pipeline c pv ps p (frame pre suf cut body) = Ok (Signed (snd k)).
+Proof. exact framed_upload_refused_or_admissible. Qed.
+Print Assumptions c10_framed_upload_refused_or_admissible.
+
+Theorem c10_framed_upload_total : forall c pv ps p pre suf cut body,
+  guarded16 c = true -> upload_pipeline c pv ps p (frame pre suf cut body) <> Panic.
+Proof. intros c pv ps p pre suf cut body. exact (upload_pipeline_total c pv ps p (frame pre suf cut body)). Qed.
+Print Assumptions c10_framed_upload_total.
+
+Theorem c10_unguarded_transcoder_refuted :
+  (exists c up, strip8 c = true /\ le16 c = true /\ be16 c = true /\ normalize c up = Panic) /\
+  (forall c up, normalize c up = Panic ->
+     guarded16 c = false /\
+     exists m r, (m = utf16le_mark \/ m = utf16be_mark) /\ up = m ++ r /\ Nat.odd (length r) = true).
+Proof. exact unguarded_transcoder_refuted. Qed.
+Print Assumptions c10_unguarded_transcoder_refuted.
+
+(* non-vacuity: a well-formed UTF-16LE upload of a strong key is certified by a transcoding path, the same
+   bytes cut by one are refused; today's path refuses both *)
+Example c10_framing_nonvacuous :
+  let c := {| strip8 := true; le16 := true; be16 := true; guarded16 := true |} in
+  let parse := fun t : bs => if bs_eqb t [107; 10] then Some (1, Ed25519) else None in
+  upload_pipeline c parse parse KSsh [255; 254; 107; 0; 10; 0] = Ok (Signed Ed25519) /\
+  upload_pipeline c parse parse KSsh [255; 254; 107; 0; 10] = Ok ClientError /\
+  upload_pipeline norm_today parse parse KSsh [255; 254; 107; 0; 10; 0] = Ok ClientError /\
+  upload_pipeline norm_today parse parse KSsh (frame [] [] 0 [107; 10]) = Ok (Signed Ed25519).
+Proof. vm_compute. repeat split. Qed.
